@@ -11,7 +11,7 @@ run_one() {
   id=$1; k=$2
   extra=""
   # seeds whose changed code belongs to another property's check are also run against that check
-  case "${id}_$k" in C14_5) extra="C14 C12";; C03_3) extra="C03 C10";; esac
+  case "${id}_$k" in C14_5) extra="C14 C12";; C03_3) extra="C03 C10";; C08_12) extra="C08 C10";; C01_11) extra="C01 C12";; C06_12) extra="C06 C08";; esac
   /verif/seedcheck.sh $id $k $extra > /dev/null 2>&1
   echo "== $id/$k: $(grep -v '^suite\|^demo\|^VIOLATION' /tmp/seedres/${id}_$k.txt | tr '\n' ' ' | cut -c1-400)" >> /tmp/seedres/final.txt
 }
